@@ -53,13 +53,14 @@ FLAGS = {
 }
 
 
-def evict(keep_hash):
-    """Remove builds of other tree hashes (disk is limited)."""
+def evict(keep_hash, keep=5):
+    """Remove old builds of other tree hashes (disk is limited): keep the `keep` most recently used build directories."""
     if not os.path.isdir(CACHE):
         return
-    for d in os.listdir(CACHE):
-        if d.startswith("build-") and not d.startswith("build-" + keep_hash):
-            shutil.rmtree(os.path.join(CACHE, d), ignore_errors=True)
+    ds = [d for d in os.listdir(CACHE) if d.startswith("build-") and not d.startswith("build-" + keep_hash)]
+    ds.sort(key=lambda d: os.path.getmtime(os.path.join(CACHE, d)), reverse=True)
+    for d in ds[keep:]:
+        shutil.rmtree(os.path.join(CACHE, d), ignore_errors=True)
 
 
 def build(variant="plain", repo=REPO, quiet=True):
@@ -73,6 +74,7 @@ def build(variant="plain", repo=REPO, quiet=True):
     fcntl.flock(lock, fcntl.LOCK_EX)
     try:
         if os.path.exists(stamp):
+            os.utime(bdir, None)
             return bdir
         evict(th)
         if os.path.isdir(bdir):
